@@ -237,11 +237,17 @@ func (a *archiveReconciler) garbageCollectRevisions(
 		if numToDelete <= 0 {
 			break
 		}
+		numToDelete--
+
+		// Revisions that have not been archived may still be serving objects
+		// that newer revisions have not taken over yet, never prune them.
+		if !previousObjectSet.IsArchived() {
+			continue
+		}
 
 		if err := a.client.Delete(ctx, previousObjectSet.ClientObject()); err != nil && !errors.IsNotFound(err) {
 			return fmt.Errorf("failed to delete objectset: %w", err)
 		}
-		numToDelete--
 	}
 
 	return nil
